@@ -99,6 +99,8 @@ template <class T> struct problem {
     // diagonal scaling D_c = vscale[c]; deterministic, different on every application
     bool variableP = false;
     std::vector<std::vector<T>> vscale;
+    mutable const amgcl::backend::crs<T> *alt = 0;     // if set: the system matrix the next calls are made with
+
     void make_variable(int napply) {
         variableP = true; vscale.assign(napply, std::vector<T>(n));
         for (int c = 0; c < napply; ++c) for (int i = 0; i < n; ++i) {
@@ -154,7 +156,7 @@ void with_object(const problem<T> &pb, const Prm &prm, Body &&body) {
         try {
             S->prm.maxiter = maxiter; S->prm.tol = tol;
             x = x0; P.count = 0;
-            std::tie(r.it, r.rep) = (*S)(A, P, f, x);
+            std::tie(r.it, r.rep) = (*S)(pb.alt ? *pb.alt : A, P, f, x);
             for (auto &v : x) if (!std::isfinite(std::abs(v))) r.finite = false;
             if (!std::isfinite(r.rep)) r.finite = false;
         } catch (const std::exception &e) { r.ok = false; r.exc = e.what(); }
@@ -505,6 +507,57 @@ void compare_delta(const problem<T> &pb, const cfg &c, int K, const char *vt, co
     vr::emit(o.done());
 }
 
+// A call that ends with the method's OWN breakdown exception (idrs: zero M[k,k] on an all-zero operator;
+// bicgstab / bicgstabl: zero rho / zero omega on a small integer system embedded in the identity, found by
+// search), then the iterates x_k, k = 1..K, of the SAME object against those of fresh objects.
+template <class T>
+bool provoke_breakdown(const problem<T> &pb, const cfg &c, solve_fn<T> &solve, std::string &what) {
+    int n = pb.n; std::vector<T> x;
+    if (c.method == "idrs") {
+        std::vector<ptrdiff_t> ptr(n + 1), col(n); std::vector<T> val(n, T(0));
+        for (int i = 0; i <= n; ++i) ptr[i] = i; for (int i = 0; i < n; ++i) col[i] = i;
+        amgcl::backend::crs<T> Z(std::tie(n, ptr, col, val));
+        pb.alt = &Z; result r = solve(5, 0.0, pb.fd, pb.x0d, x); pb.alt = 0;
+        what = r.exc; return !r.ok;
+    }
+    // 2x2 integer block (entries -2..2) in the leading corner of the identity, rhs supported on the block
+    for (long code = 0; code < 625; ++code) for (int fi = 0; fi < 3; ++fi) {
+        int a[4]; long cc = code; for (int i = 0; i < 4; ++i) { a[i] = (int)(cc % 5) - 2; cc /= 5; }
+        if (a[0] * a[3] - a[1] * a[2] == 0) continue;
+        std::vector<ptrdiff_t> ptr(1, 0), col; std::vector<T> val;
+        for (int i = 0; i < n; ++i) {
+            if (i < 2) { for (int j = 0; j < 2; ++j) { col.push_back(j); val.push_back(T(a[2 * i + j])); } }
+            else { col.push_back(i); val.push_back(T(1)); }
+            ptr.push_back(col.size());
+        }
+        amgcl::backend::crs<T> B(std::tie(n, ptr, col, val));
+        std::vector<T> f(n, T(0)), x0(n, T(0)); f[0] = T(1); f[1] = T(fi);
+        pb.alt = &B; result r = solve(4, 0.0, f, x0, x); pb.alt = 0;
+        if (!r.ok && (r.exc.find("Zero") != std::string::npos || r.exc.find("breakdown") != std::string::npos)) { what = r.exc; return true; }
+    }
+    what = ""; return false;
+}
+template <class T>
+void compare_after_breakdown(const problem<T> &pb, const cfg &c, int K, const char *vt, long id) {
+    typedef typename wide<T>::type W;
+    ld xs = nrm(pb.xstar), kap = cond2(c.side == "left" ? mul(pb.P, pb.A) : mul(pb.A, pb.P));
+    std::vector<long> errs; int nexc = 0, nnan = 0; bool thrown = false; std::string what;
+    int step = c.method == "bicgstabl" ? c.L : 1;
+    with_solver(pb, c, [&](solve_fn<T> &solve) {
+        thrown = provoke_breakdown(pb, c, solve, what);
+        for (int k = step; k <= K; k += step) {
+            std::vector<T> x, y;
+            result r = solve(k, 0.0, pb.fd, pb.x0d, x), r0 = run_real(pb, c, k, 0.0, y);
+            if (!r.ok || !r0.ok) { ++nexc; break; } if (!r.finite || !r0.finite) { ++nnan; break; }
+            std::vector<W> d(pb.n); for (int i = 0; i < pb.n; ++i) d[i] = W(x[i]) - W(y[i]);
+            errs.push_back(md(nrm(d) / xs));
+        }
+    });
+    vr::obj o; o.str("k", "afterbrk").str("method", c.method).str("side", c.side).str("vt", vt).i("id", id).i("n", pb.n).i("L", c.L).i("s", c.s)
+        .i("thrown", thrown).str("what", what).i("cond", md(kap)).ints("err", errs).i("want", (long)(K / step)).i("nexc", nexc).i("nnan", nnan);
+    vr::emit(o.done());
+}
+
 static long g_id = 0;
 template <class T> void mode_ref_type(vr::rng &g, const char *vt, int reps) {
     static const int NS[6] = {6, 12, 20, 33, 45, 60};
@@ -565,6 +618,14 @@ template <class T> void mode_ref_type(vr::rng &g, const char *vt, int reps) {
             if (L == 1) compare_with_reference(pb, c, std::min(n, 14), vt, "nonsym-delta", ++g_id);
             else compare_delta(pb, c, std::min(n, 16), vt, "nonsym-delta", ++g_id);
         }
+    }
+    // histories: the method's own breakdown exception, then regular solves on the same object
+    for (int rep = 0; rep < reps; ++rep) for (int n : {9, 20}) for (int sym = 0; sym < 2; ++sym) {
+        problem<T> pb = make_problem<T>(g, n, sym, 0);
+        int K = std::min(n, 12);
+        for (int sI : {1, 2, 4}) { cfg c; c.method = "idrs"; c.s = sI; compare_after_breakdown(pb, c, K, vt, ++g_id); }
+        for (int sd = 0; sd < 2; ++sd) { cfg c; c.method = "bicgstab"; c.side = sd ? "left" : "right"; compare_after_breakdown(pb, c, K, vt, ++g_id); }
+        for (int L : {1, 2}) { cfg c; c.method = "bicgstabl"; c.L = L; c.side = (L + sym) % 2 ? "left" : "right"; compare_after_breakdown(pb, c, K, vt, ++g_id); }
     }
     // FGMRES with a VARIABLE preconditioner (a different operator on every application): the flexible
     // GMRES reference; restarts included
